@@ -154,6 +154,9 @@ func VP_C10_Rename() {
 		zzvp.Assert(ok && zzvp.SnapEq(s0, zzvp.Snapshot(g)), "a refused rename changes nothing")
 	} else {
 		zzvp.Assert(err == nil, "renaming to a new name succeeds")
+		// (the branch now exists under both names on disk until HEAD has been moved; branch -r then removes the old file)
+		zzvp.Assert(zzvp.Exists(g+"/refs/heads/"+cur) && zzvp.Exists(g+"/refs/heads/"+q), "during a rename the branch exists under both names, so HEAD never names a missing branch")
+		zzvp.Assert(r.RemoveRenamedBranch(g, cur) == nil, "removing the old name succeeds")
 		ok := len(r.Heads) == len(old) && vpHas(r, q, old[ci].hash)
 		for i, o := range old {
 			if i != ci && !vpHas(r, o.name, o.hash) {
